@@ -161,7 +161,7 @@ def jobs(tier, seed):
                           C.custom(stacks, TWO, deck=WIDE, hand_types=('HighCardAny', 'JQLow'), antes=1, boards=2, plan=plan)))
     for j in out:
         j.setdefault('state_cap', 200000)
-        j.setdefault('time_cap', 120)
+        j.setdefault('time_cap', 600)
     return out
 
 
